@@ -447,6 +447,16 @@ impl Fiber {
     );
   }
 
+  /// The call frame depth of the innermost exception handler (0 if there is none)
+  #[cfg(feature = "verif")]
+  pub fn verif_handler_frame(&self) -> usize {
+    self
+      .exception_handlers
+      .last()
+      .map(|handler| handler.call_frame_depth())
+      .unwrap_or(0)
+  }
+
   /// Do we currently have an active exception handler
   fn exception_handler(&self) -> Option<ExceptionHandler> {
     self.exception_handlers.last().copied()
